@@ -11,6 +11,7 @@ int rh_cmd(const cmd *c) __attribute__((weak));
 int gate_cmd(const cmd *c) __attribute__((weak));
 int disp_cmd(const cmd *c) __attribute__((weak));
 int self_cmd(const cmd *c) __attribute__((weak));
+int job_cmd(const cmd *c) __attribute__((weak));
 
 #include <pthread.h>
 void disp_rearm_all(void) __attribute__((weak));
@@ -19,7 +20,7 @@ static int
 dispatch(const cmd *c)
 {
         return (hash_cmd && hash_cmd(c)) || (aes_cmd && aes_cmd(c)) || (mh_cmd && mh_cmd(c)) || (rh_cmd && rh_cmd(c)) ||
-               (gate_cmd && gate_cmd(c)) || (disp_cmd && disp_cmd(c)) || (self_cmd && self_cmd(c));
+               (gate_cmd && gate_cmd(c)) || (disp_cmd && disp_cmd(c)) || (self_cmd && self_cmd(c)) || (job_cmd && job_cmd(c));
 }
 struct parg {
         char cmds[512], trace[512];
